@@ -199,25 +199,8 @@ LUBA_EVENT_DELIVERS = {
 
 
 def _fold_int_class_consts(fn, folder, c):
-    """Copy of fn with loads of `self.X` / `cls.X` written as the integer
-    the class attribute folds to (named constants for header sizes)."""
-    from ..inline import acopy
-
-    class F(ast.NodeTransformer):
-        def visit_Attribute(self, n):
-            self.generic_visit(n)
-            if isinstance(n.ctx, ast.Load) and isinstance(
-                    n.value, ast.Name) and n.value.id in ("self", "cls"):
-                try:
-                    v = folder.class_attr(c, n.attr)
-                except Exception:
-                    v = None
-                if type(v) is int:
-                    return ast.copy_location(ast.Constant(v), n)
-            return n
-    out = F().visit(acopy(fn))
-    ast.fix_missing_locations(out)
-    return out
+    from ..unroll import fold_int_class_attrs
+    return fold_int_class_attrs(fn, folder, c)
 
 
 def _check_luba_dispatch(run, world, folder, mod, c):
